@@ -27,7 +27,7 @@ PAGES = {
     "p2.zo": "# Page two\n\n- 240105#b1 zeta note links [[p1]] [#G1] ID::G2 n::5\n"
              "> P2 240105#b2 eta todo [[p_3]] [@R1] RID::R2 @home @desk\n"
              "o 240106#b3 theta nothing here s::Abc\n\n",
-    "p_3.zo": "# Page three\n\n- 240107#c1 iota in p_3 [240101#a1] #work\n\n",
+    "p_3.zo": "# Page three\n\n- 240107#c1 iota in p_3 [240101#a1] #work #shared %bob %al\n\n",
     "pX3.zo": "# Page X\n\n- 240108#d1 kappa in pX3 [[p1#sec]] +proj2 n::5\n\n",
     "sub/deep.zo": "# Deep\n\n- 240109#e1 lambda deep [[sub/deep]] %bob due::2024-01-05\n\n",
 }
@@ -166,6 +166,39 @@ def rand_and(rng, depth=0):
     return af
 
 
+def atom_pool():
+    """One representative atom per (kind, value, polarity): every pair of them is put into one AND group (2-way coverage)."""
+    from zorg.domain.models._query import DateRange, DescFilter, FileFilter, LinkFilter, PropertyFilter
+    from zorg.domain.types import DescOperator, NoteType, PropertyOperator as PO, PropertyValueType as PT
+
+    pool = []
+    for kind, vals in (("areas", ["work", "shared"]), ("contexts", ["home", "desk"]), ("people", ["bob", "al"]), ("projects", ["proj1", "proj2"])):
+        for v in vals:
+            for neg in ("", "-"):
+                pool.append((f"{kind}:{neg}{v}", lambda af, kind=kind, v=v, neg=neg: getattr(af, kind).add(neg + v)))
+    for t in (NoteType.BASIC, NoteType.OPEN_TODO):
+        pool.append((f"type:{t.name}", lambda af, t=t: af.allowed_note_types.add(t)))
+    pool.append(("prio:P1-4", lambda af: af.priorities.update({"P1", "P2", "P3", "P4"})))
+    for key, val, op, ty in (("n", "5", PO.EQ, PT.INTEGER), ("n", "7", PO.GE, PT.INTEGER), ("due", "2024-01-05", PO.LE, PT.DATE), ("s", "abc", PO.EQ, PT.STRING)):
+        for neg in (False, True):
+            pool.append((f"prop:{key}{op.name}{val}:{neg}", lambda af, key=key, val=val, op=op, ty=ty, neg=neg: af.property_filters.add(PropertyFilter(key, val, op, ty, neg))))
+    for key in ("due", "ID"):
+        for neg in (False, True):
+            pool.append((f"exists:{key}:{neg}", lambda af, key=key, neg=neg: af.property_filters.add(PropertyFilter(key, negated=neg))))
+    for v in ("note", "foo_bar", "Foo_Bar", "100%", "back\\slash"):
+        for neg in (False, True):
+            pool.append((f"desc:{v}:{neg}", lambda af, v=v, neg=neg: af.desc_filters.add(DescFilter(v, None, DescOperator.NOT_CONTAINS if neg else DescOperator.CONTAINS))))
+    for g in ("p*", "p_3.zo", "sub/*"):
+        for neg in (False, True):
+            pool.append((f"file:{g}:{neg}", lambda af, g=g, neg=neg: af.file_filters.add(FileFilter(g, neg))))
+    for l in ("p1", "p2", "p_3"):
+        for neg in (False, True):
+            pool.append((f"link:{l}:{neg}", lambda af, l=l, neg=neg: af.link_filters.add(LinkFilter(l, neg))))
+    for d in (dt.date(2024, 1, 2), dt.date(2024, 1, 5)):
+        pool.append((f"cdate:{d}", lambda af, d=d: af.create_date_ranges.add(DateRange(d, d + dt.timedelta(days=3)))))
+    return pool
+
+
 def describe(of):
     return repr(of)[:600]
 
@@ -235,7 +268,37 @@ def filters(tier, seed):
                     fails.append({"filter": describe(of), "error": f"returned {sorted(got)} expected {sorted(want)}", "classes": sorted(classify(of))})
                 if i < 2:
                     samples.append({"filter": describe(of), "result": sorted(want)})
-    return {"name": "filters_on_sqlite", "bound": f"{n} random filter trees (<= 3 atoms per group, nesting <= 2, all atom kinds, negation, literals with % _ \\ and case variants) on a fixture index of 5 pages / 11 notes incl. page names differing in one character",
+            # every pair of representative atoms in one AND group, and each pair as two alternatives
+            from zorg.domain.models import WhereAndFilter
+
+            pool = atom_pool()
+            npairs = 0
+            for ia, (na, fa) in enumerate(pool):
+                for nb, fb in pool[ia:]:
+                    for shape in ("and", "or"):
+                        if shape == "and":
+                            af = WhereAndFilter()
+                            fa(af)
+                            fb(af)
+                            of = WhereOrFilter([af])
+                        else:
+                            a1, a2 = WhereAndFilter(), WhereAndFilter()
+                            fa(a1)
+                            fb(a2)
+                            of = WhereOrFilter([a1, a2])
+                        want = {m["zid"] for m in U if sat_or(of, m, U)}
+                        npairs += 1
+                        try:
+                            got = {x.zid for x in s.repo.get_notes_by_query(of)}
+                        except Exception as e:
+                            fails.append({"filter": f"{na} {shape} {nb}", "error": f"query raised {type(e).__name__}: {str(e)[:200]}", "classes": sorted(classify(of))})
+                            continue
+                        if 0 < len(want) < len(all_z):
+                            nontriv.add(f"{na} {shape} {nb}")
+                        if got != want:
+                            fails.append({"filter": f"{na} {shape} {nb}: " + describe(of), "error": f"returned {sorted(got)} expected {sorted(want)}", "classes": sorted(classify(of))})
+            n += npairs
+    return {"name": "filters_on_sqlite", "bound": f"all pairs of {len(atom_pool())} representative atoms (as one AND group and as two alternatives) + random filter trees ({n} queries in all; <= 3 atoms per group, nesting <= 2, all atom kinds, negation, literals with % _ \\ and case variants) on a fixture index of 5 pages / 11 notes incl. page names differing in one character",
             "evaluations": n, "distinct_nontrivial": len(nontriv), "failures": fails, "samples": samples, "replay_fn": "replay_filter"}
 
 
